@@ -18,35 +18,40 @@ VARIABLES l, X, inst
 vars == <<l, X, inst>>
 NoInst == [nagg |-> 0]
 
+\* the spec could not recompute a value because the real code never made the XOF query the draft
+\* prescribes: never a match, whatever the implementation returned
+OracleErr(r) == ~r.ok /\ r.why \in {"oracle:helper", "oracle:part", "oracle:jrseed", "oracle:jr", "oracle:prove", "oracle:query"}
+
 PrefixCompatible(a, b) == \A i \in 1..(IF Len(a) < Len(b) THEN Len(a) ELSE Len(b)) : a[i] = b[i]
 
 EventOK(e) ==
   CASE e.ev = "shard" ->
          LET enc == IF "raw" \in DOMAIN e THEN e.raw ELSE EncodeM(inst.c, e.m)
              r == Shard(X, inst, e.ctx, enc, e.nonce, e.rand)
-         IN /\ r.ok = e.ok
+         IN /\ r.ok = e.ok /\ ~OracleErr(r)
             /\ e.ok => (r.pub = e.pub /\ r.shares = e.shares)
     [] e.ev = "decode_fail" ->
          (CASE e.what = "pub" -> ~PubDecodes(inst, e.bytes)
-            [] e.what = "share" -> e.j >= inst.nagg \/ ~ShareDecodes(inst, e.j, e.bytes)
+            [] e.what = "share" -> e.j >= inst.nagg \/ ~ShareDecodes(inst, e.j, e.bytes)     \* j = decoding identifier here
             [] e.what = "vshare" -> ~VShareDecodes(inst, e.bytes)
             [] e.what = "state" -> ~StateDecodes(inst, e.j, e.bytes)
             [] e.what = "msg" -> ~MsgDecodes(inst, e.bytes)
             [] OTHER -> FALSE)
     [] e.ev = "vinit" ->
-         /\ PubDecodes(inst, e.pub) /\ (e.j < inst.nagg => ShareDecodes(inst, e.j, e.share))
-         /\ LET r == VInit(X, inst, e.key, e.ctx, e.j, e.nonce, e.pub, e.share) IN
-            /\ r.ok = e.ok
+         \* dj = identifier under which the share bytes were decoded (its role); j = identifier used
+         /\ PubDecodes(inst, e.pub) /\ (e.dj < inst.nagg => ShareDecodes(inst, e.dj, e.share))
+         /\ LET r == VInitShaped(X, inst, e.key, e.ctx, e.j, e.dj = 0, e.nonce, e.pub, e.share) IN
+            /\ r.ok = e.ok /\ ~OracleErr(r)
             /\ e.ok => (r.vshare = e.vshare /\ r.state = e.state)
     [] e.ev = "s2m" ->
          /\ \A k \in 1..Len(e.vshares) : VShareDecodes(inst, e.vshares[k])
          /\ LET r == S2M(X, inst, e.ctx, e.vshares) IN
-            /\ r.ok = e.ok
+            /\ r.ok = e.ok /\ ~OracleErr(r)
             /\ e.ok => r.msg = e.msg
     [] e.ev = "vnext" ->
          /\ StateDecodes(inst, e.j, e.state) /\ MsgDecodes(inst, e.msg)
          /\ LET r == VNext(X, inst, e.ctx, e.j, e.state, e.msg) IN
-            /\ r.ok = e.ok
+            /\ r.ok = e.ok /\ ~OracleErr(r)
             /\ e.ok => r.out = e.out
     [] e.ev = "agg" -> EncVec(AggShare(inst, e.outs)) = e.agg
     [] e.ev = "unshard" -> Unshard(inst, e.aggs) = e.result
